@@ -360,6 +360,11 @@ def config_lattice(rng, readers=("strict", "cursor")):
                          F() + box(b"mdat", b"abc") + box(b"moov", m1[8:], form="64"),
                          F() + m1 + box(b"mdat", b"abc") + box(b"moov", m1[8:], form="eof")):
                 yield case_dense(rd, mx, None, data), "limit-lattice"
+        # the limit is about the moov payload only: an ftyp payload LARGER than the moov payload with limits between the two
+        bigf = F(brands=(b"isom",) + tuple(bytes([65 + i % 26]) * 4 for i in range(40)))
+        for mx in [pl - 1, pl, pl + 1, 100, len(bigf) - 9, len(bigf) - 8, len(bigf)]:
+            for data in (bigf + box(b"mdat", b"abc") + m1, bigf + m1 + box(b"mdat", b"abc")):
+                yield case_dense(rd, mx, None, data), "limit-lattice"
         body = b"abcdefghij"
         for cum in [None, 0, 1, 7, 8, 9, 8 + len(body), 8 + len(body) + 1, 8 + len(body) - 1, 10**6, 2**32 - 1]:
             for data in (F() + m1 + box(b"mdat", body, form="eof"), F() + box(b"mdat", body, form="eof"),
